@@ -642,6 +642,7 @@ def DexOk (s : State) : Op → Prop
         (r.livenessFallback = true → ptsSum r.poolPoints = r.totalPoolPoints ∧ r.totalPoolPoints < U64)
   | .setPool id p => PoolOk p ∧ ∀ c, c ≤ maxChainId → id ≠ holdingId c
   | .seedNext c b => c ≤ maxChainId ∧ AM.get? s.next c = none ∧ BatchOk c b ∧ holdAmt s c + b.pending < U64
+  | .subsidy _ id _ _ => ∀ c, c ≤ maxChainId → id ≠ holdingId c
   | _ => True
 
 theorem apply_dinv {s s' : State} {op : Op} (hi : DInv s) (hok : DexOk s op) (h : apply s op = .ok s') : DInv s' := by
@@ -661,6 +662,20 @@ theorem apply_dinv {s s' : State} {op : Op} (hi : DInv s) (hok : DexOk s op) (h 
     · intro c' hc' hne
       show (getPool (poolAdd s (holdingId c) b.pending) (holdingId c')).amount = _
       rw [poolAdd_other _ _ _ _ (fun e => hne (holdingId_inj hc hc' e))]; rfl
+  | subsidy a id n op =>
+    change subsidy s a id n op = Except.ok s' at h
+    unfold subsidy at h
+    obtain ⟨_, _, h⟩ := bind_ok h
+    split at h
+    · cases h
+    · obtain ⟨s1, h1, h⟩ := bind_ok h
+      injection h with h; subst h
+      have e1 : Eff 0 s s1 0 := eff_accountSub h1
+      refine dinv_of_same hi e1.next e1.locked e1.height
+        (pinv_setPool (e1.pinv hi.pools) (poolOk_amount (e1.pinv hi.pools _) (Nat.mod_lt _ (by decide)))) (fun c hc => ?_)
+      show (getPool (poolAdd s1 id n) (holdingId c)).amount = _
+      rw [poolAdd_other _ _ _ _ (Ne.symm (hok c hc))]
+      exact holdAmt_congr (accountSub_ok h1).2.1 c
   | create m => exact dinv_of_sellEff hi (sellEff_create h)
   | edit m => exact dinv_of_sellEff hi (sellEff_edit h)
   | delete c id => exact dinv_of_sellEff hi (sellEff_delete h)
